@@ -22,7 +22,9 @@ type c4Gen struct {
 	Name  string   `json:"name"`
 	Mode  string   `json:"mode"`
 	Alias bool     `json:"alias,omitempty"`
-	Parts []string `json:"parts"` // docecho | valuemap | refs | counter | valuecompete
+	Parts []string `json:"parts"` // docecho | valuemap | refs | counter | valuecompete | rotrefs
+	// RotPair: which pair of same-named packages the rotrefs part refers to (some packages use both, some only the second)
+	RotPair int `json:"rotpair,omitempty"`
 	// Behave: "" (renders its parts) | ignore (ErrIgnore for every type, nothing rendered) | quiet (nothing rendered)
 	Behave string `json:"behave,omitempty"`
 }
@@ -56,6 +58,11 @@ func (c c4Case) base() string {
 	return c.Base
 }
 
+var c4RotPairs = [][]string{
+	{"example.com/x/codec.T", "example.com/y/codec.T"}, {"example.com/y/codec.T", "example.com/x/codec.T"},
+	{"github.com/foo/bar.T", "github.com/other/bar.T"}, {"example.com/b/util.X", "example.com/a/util.X"},
+}
+
 var c4Refs = []string{"errors.New", "unicode/utf8.RuneError", "math/bits.Len", "sort.Strings", "unicode.IsSpace", "strconv.Itoa"}
 
 func genC04(t *rapid.T) c4Case {
@@ -64,11 +71,14 @@ func genC04(t *rapid.T) c4Case {
 	c := c4Case{ModCase: genMod(t, o)}
 	for _, n := range names {
 		g := c4Gen{Name: n, Mode: rapid.SampledFrom([]string{"fixed", "new"}).Draw(t, "mode"), Alias: rapid.Bool().Draw(t, "alias")}
-		for _, p := range []string{"docecho", "valuemap", "refs", "counter", "valuecompete"} {
-			if rapid.IntRange(0, 2).Draw(t, "part-"+p) > 0 {
+		for _, p := range []string{"docecho", "valuemap", "refs", "counter", "valuecompete", "rotrefs"} {
+			// rotrefs refers to packages that do not exist (two pairs competing for one import name): kept to a third of the
+			// generators, the later runs then load packages whose generated file has unresolvable imports
+			if n := rapid.IntRange(0, 2).Draw(t, "part-"+p); n > 0 && (p != "rotrefs" || n == 2) {
 				g.Parts = append(g.Parts, p)
 			}
 		}
+		g.RotPair = rapid.IntRange(0, len(c4RotPairs)-1).Draw(t, "rotpair")
 		if len(g.Parts) == 0 {
 			g.Parts = []string{"docecho"}
 		}
@@ -147,6 +157,13 @@ func (g c4Gen) script() *script.Script {
 			pieces = append(pieces, script.Piece{Kind: "t", Text: text, Refs: c4Refs})
 		case "counter":
 			pieces = append(pieces, script.Piece{Kind: "block", Text: "\nvar _$G_$T_n = $N\n"})
+		case "rotrefs":
+			refs := c4RotPairs[g.RotPair%len(c4RotPairs)]
+			text := "\n"
+			for i := range refs {
+				text += fmt.Sprintf("var _$G_$T_rot%d *@R%d\n\n", i, i)
+			}
+			pieces = append(pieces, script.Piece{Kind: "t", Text: text, Refs: refs, Rotate: true})
 		}
 	}
 	s.Default = script.Action{Render: pieces}
@@ -319,6 +336,32 @@ func oracleC04(c c4Case) error {
 		}
 		if err := compare(fmt.Sprintf("repeated run %d", i+2), script.Run(spec(nil))); err != nil {
 			return err
+		}
+	}
+	// the same contents checked out somewhere else (gengo.sum is committed and shared between checkouts)
+	{
+		other, err := os.MkdirTemp("", "vt-another-checkout-location-")
+		if err != nil {
+			panic("harness: " + err.Error())
+		}
+		if real, err := filepath.EvalSymlinks(other); err == nil {
+			other = real
+		}
+		defer os.RemoveAll(other)
+		if err := initial.Restore(other); err != nil {
+			panic("harness: restore: " + err.Error())
+		}
+		rs := spec(nil)
+		rs.Dir = other
+		if c.Sib {
+			rs.Dir = filepath.Join(other, "main")
+		}
+		res := script.Run(rs)
+		if err := check("run on a second checkout at another path", res); err != nil {
+			return err
+		}
+		if d := diffViews(refView, generatedView(mustSnapshot(other), c.base())); d != "" {
+			return fmt.Errorf("the same contents at another absolute path give different output: %s", d)
 		}
 	}
 	for pi, perm := range c.Perms {
